@@ -350,6 +350,8 @@ impl<T> Pool<T> {
         self.inner.semaphore.add_permits(1);
         #[cfg(deadpool_verif)]
         crate::verif::point("u_add:permit_added", Arc::as_ptr(&self.inner) as usize);
+        // The pool might have been closed while the object was being added.
+        self.inner.clean_up();
     }
 
     /// Removes an [`Object`] from this [`Pool`].
